@@ -217,6 +217,7 @@ package sse
 //@   ensures auto_with_id_rejected: currentID != nil && m.ID.set ==> result1 != nil && result == nil && *currentID == old(*currentID)
 //@   ensures auto_assigns_next_id: currentID != nil && !m.ID.set ==> result1 == nil && result != nil && fresh(result) && allocated(result) && result.ID.set && result.ID.value == fmtU(old(*currentID)) && *currentID == old(*currentID) + 1
 //@   ensures auto_copies_rest: currentID != nil && !m.ID.set ==> result.Type == m.Type && result.Retry == m.Retry && sameseq(result.chunks, m.chunks)
+//@   ensures auto_copy_cannot_append_in_place: currentID != nil && !m.ID.set ==> cap(result.chunks) == len(result.chunks)
 //@   ensures message_untouched: *m == old(*m)
 
 //@ func NewFiniteReplayer
@@ -241,6 +242,7 @@ package sse
 //@   ensures fifo_evicts_oldest: result1 == nil && old(f.buf.count) == len(f.buf.buf) ==> f.buf.count == len(f.buf.buf) && forall(k, 0, f.buf.count-1, at(&f.buf, k) == old(at(&f.buf, k+1)))
 //@   ensures manual_stores_given_message: result1 == nil && f.currentID == nil ==> result == message
 //@   ensures auto_consecutive_ids: result1 == nil && f.currentID != nil ==> result.ID.value == fmtU(old(*f.currentID)) && *f.currentID == old(*f.currentID) + 1 && fresh(result)
+//@   ensures stored_copy_cannot_append_in_place: result1 == nil && f.currentID != nil ==> cap(result.chunks) == len(result.chunks)
 //@   ensures message_untouched: *message == old(*message)
 
 //@ func FiniteReplayer.Replay
@@ -333,6 +335,7 @@ package sse
 //@   ensures expires_at_put_time_plus_ttl: result1 == nil ==> at(&v.messages, v.messages.count-1).exp == cret(old(ncalls()), "Now", 0) + v.ttl
 //@   ensures manual_stores_given_message: result1 == nil && v.currentID == nil ==> result == message
 //@   ensures auto_consecutive_ids: result1 == nil && v.currentID != nil ==> result.ID.value == fmtU(old(*v.currentID)) && *v.currentID == old(*v.currentID) + 1 && fresh(result)
+//@   ensures stored_copy_cannot_append_in_place: result1 == nil && v.currentID != nil ==> cap(result.chunks) == len(result.chunks)
 //@   ensures message_untouched: *message == old(*message)
 
 //@ func ValidReplayer.Replay
